@@ -6,6 +6,7 @@ pub mod stubs;
 #[path = "../../common/util.rs"]
 #[macro_use]
 pub mod util;
+pub mod common;
 #[cfg(kani)]
 mod c26;
 #[cfg(kani)]
